@@ -81,7 +81,7 @@ impl Prop for C16 {
     }
 
     fn cases(tier: Tier) -> u64 {
-        tier.pick(40_000, 400_000)
+        tier.pick(40_000, 1_000_000)
     }
 
     fn strategy(tier: Tier) -> BoxedStrategy<Case> {
